@@ -42,7 +42,13 @@ ExpectedPolys(e) == LET n == e.n  f == IF Far(e) THEN 1 ELSE 0 IN
 ExpectedArea2(e) == LET n == e.n  f == IF Far(e) THEN 12 ELSE 0 IN
                     CASE OpOf(e) = "int" -> 8*n*n [] OpOf(e) = "union" -> 2*(2*CombArea(n) - 4*n*n) + f
                       [] OpOf(e) = "diff" -> 2*(CombArea(n) - 4*n*n) + f [] OTHER -> 2*(2*CombArea(n) - 8*n*n) + f
-ShapeOK(e) == IsComb(e) => (e.polys = ExpectedPolys(e) /\ e.area2 = ExpectedArea2(e))
+\* "nest": n concentric square rings (ring k: outer half-width 4(n-k), hole half-width 4(n-k)-2) against the square [-1,1]^2
+\* inside the innermost hole: result contours nested 2n deep.  Twice the area of the rings is 64 n^2 + 32 n.
+IsNest(e) == e.scenario \in {"bool:nest:int", "bool:nest:union", "bool:nest:diff", "bool:nest:xor"}
+NestPolys(e) == CASE e.scenario = "bool:nest:int" -> 0 [] e.scenario = "bool:nest:diff" -> e.n [] OTHER -> e.n + 1
+NestArea2(e) == CASE e.scenario = "bool:nest:int" -> 0 [] e.scenario = "bool:nest:diff" -> 64*e.n*e.n + 32*e.n [] OTHER -> 64*e.n*e.n + 32*e.n + 8
+ShapeOK(e) == /\ IsComb(e) => (e.polys = ExpectedPolys(e) /\ e.area2 = ExpectedArea2(e))
+              /\ IsNest(e) => (e.polys = NestPolys(e) /\ e.area2 = NestArea2(e))
 
 Judge == /\ bad = {} /\ i # 0
          /\ LET e == Evs[i]
